@@ -35,7 +35,7 @@ OUTBOUND_FIELDS = {
     "_all_producers": f"seq[{PROD}]", "_paused_producers": f"set[{PROD}]", "_unpaused_producers": f"set[{PROD}]",
     "_subchannel_producers": f"dict[{SUBCH},{PROD}]", "_cooperator": "obj[Cooperator]",
 }
-CONN_FIELDS = {"transport": "obj[Transport]", "sent": f"seq[{SEQREC}]"}
+CONN_FIELDS = {"transport": "obj[Transport]", "sent": f"seq[{SEQREC}]", "paused_reading": "bool"}
 INBOUND_FIELDS = {"_highest_inbound_acked": "int", "_connection": "opt[obj[Conn]]",
                   "_paused_subchannels": f"set[{SUBCH}]", "_open_subchannels": f"dict[int,{SUBCH}]"}
 
@@ -85,10 +85,25 @@ def distinct_z(s):
     return z3.ForAll([i], z3.Implies(z3.And(0 <= i, i < L(s)), ix(s, s[i]) == i))
 
 
+def _given(it, hyp, fact):
+    """hyp => fact; when hyp is literally one of the path's hypotheses, the fact itself (so that it
+    is available without quantifier reasoning)"""
+    h = z3.simplify(hyp)
+    if any(h.eq(p) for p in it.ctx.pc):
+        return fact
+    return z3.Implies(hyp, fact)
+
+
 def seq_op_hook(it, s, meth, old, args):
     """element-wise consequences of a list/deque operation (new value s.z, old value `old`).
     Pure facts of the theory of finite sequences; the sequence solvers do not derive them under
     quantifiers, so they are stated.  Validated against CPython lists by the `list-op-facts` task."""
+    if meth.startswith("pre:"):
+        if meth in ("pre:remove", "pre:index") and s.elem.kind == "opaque":
+            # the engine decides ValueError with the solver's own indexof: the same first index
+            x = to_z3(it.force(args[0]), s.elem)
+            it.ctx.assume(z3.IndexOf(old, z3.Unit(x), 0) == ix(old, x))
+        return
     new = s.z
     j = z3.Int("j!op")
     es = new.sort().basis()
@@ -118,7 +133,7 @@ def seq_op_hook(it, s, meth, old, args):
             new[n - 1] == h,
             z3.ForAll([j], z3.Implies(z3.And(0 <= j, j < n - 1), new[j] == old[j + 1])),
             z3.ForAll([y], z3.Implies(y != h, ix(new, y) == z3.If(ix(old, y) < 0, -1, ix(old, y) - 1))),
-            z3.Implies(distinct_z(old), ix(new, h) == n - 1))))
+            _given(it, distinct_z(old), ix(new, h) == n - 1))))
         for f in first_index_facts(new, es):
             A(f)
     elif meth == "remove" and opaque:
@@ -130,7 +145,7 @@ def seq_op_hook(it, s, meth, old, args):
         A(z3.ForAll([j], z3.Implies(z3.And(k <= j, j < n - 1), new[j] == old[j + 1])))
         A(z3.ForAll([y], z3.Implies(y != x, ix(new, y) == z3.If(ix(old, y) < 0, -1,
                                                                   z3.If(ix(old, y) < k, ix(old, y), ix(old, y) - 1)))))
-        A(z3.Implies(distinct_z(old), ix(new, x) == -1))
+        A(_given(it, distinct_z(old), ix(new, x) == -1))
         for f in first_index_facts(new, es):
             A(f)
 
@@ -189,6 +204,12 @@ def install_spec(reg):
         return VBool(z3.And(n1 == n2, z3.BoolVal(c1.oid == c2.oid)))
 
     sf["conn_same"] = conn_same
+
+    def reading_paused(it, ob):
+        n, c = conn_of(ob)
+        return c.fields["paused_reading"] if c is not None else VBool(False)
+
+    sf["reading_paused"] = reading_paused
 
     def conn_is(it, ob, c):
         n1, c1 = conn_of(ob)
@@ -543,7 +564,9 @@ def set_of_seq(it, args, kw):
         v = it.force(args[0])
         if isinstance(v, VSeq) and v.elem.kind == "opaque":
             k = z3.Const("k!sos", sort_of(v.elem))
-            return VSet(z3.Lambda([k], ix(v.z, k) >= 0), v.elem)
+            r = VSet(z3.Lambda([k], ix(v.z, k) >= 0), v.elem)
+            r.pointwise = True      # compared member by member (see Interp.eq)
+            return r
     return b_set(it, args, kw, None)
 
 
@@ -559,6 +582,8 @@ def make_reg(contracts, exclude=()):
     reg.class_fields["Conn"] = dict(CONN_FIELDS)
     reg.class_fields["Inbound"] = dict(INBOUND_FIELDS)
     reg.boundary["Conn.send_record"] = conn_send_record
+    reg.boundary["Conn.pauseProducing"] = conn_pause
+    reg.boundary["Conn.resumeProducing"] = conn_resume
     reg.boundary["Producer.resumeProducing"] = producer_resume
     reg.boundary["Producer.pauseProducing"] = producer_pause
     reg.ext_models["new:PullToPush"] = new_pull_to_push
@@ -588,6 +613,7 @@ ALLMOD = ["_outbound_queue", "_queued_unsent", "_next_outbound_seqnum", "_paused
 
 
 QF = ["_outbound_queue", "_queued_unsent", "_next_outbound_seqnum"]
+REPLAY = {"driver": "dilq_replay:replay"}     # replay/dilq_replay.py: real objects with recording fakes around them
 
 
 def fields(*names):
@@ -715,6 +741,131 @@ def outbound_contracts():
             ("c15.nobody-forgotten", "set_union_is(self._paused_producers, old(self._paused_producers), old(self._unpaused_producers))")],
         modifies=["_connection", "_queued_unsent", "_paused", "_paused_producers", "_unpaused_producers"],
         note="the un-acked queue is kept for the next connection; every producer is paused"))
+    # ---- producer registration
+    RF = ["_subchannel_producers", "_all_producers", "_paused_producers", "_unpaused_producers", "_paused", "_cooperator"]
+    RINV = PINV + [INV_P[5]]
+    NEWP = "self._subchannel_producers[sc]"
+    ALLP, PP, UP = "self._all_producers", "self._paused_producers", "self._unpaused_producers"
+    cs.append(Contract(
+        OB + "subchannel_registerProducer", props=["C15"], params={"sc": SUBCH, "producer": PROD, "streaming": "bool"},
+        self_fields={f: OUTBOUND_FIELDS[f] for f in RF}, assert_mode="prove",
+        requires=RINV + ["not streaming or index_of(self._all_producers, producer) < 0"],
+        raises_exactly={"ValueError": "sc in self._subchannel_producers"},
+        ensures_raise={"ValueError": [("nothing-changed", f"{ALLP} == old({ALLP}) and {PP} == old({PP}) and {UP} == old({UP})"),
+                                      ("nobody-told", "len(bcall_names()) == 0")]},
+        ensures=named(RINV) + [
+            ("c15.registered", f"sc in self._subchannel_producers and (not streaming or {NEWP} == producer) and "
+                               f"(streaming or is_pull({NEWP}))"),
+            ("c15.joins-the-back-of-the-rotation", f"{ALLP} == old({ALLP}) + [{NEWP}]"),
+            ("c15.booked-paused-iff-paused",
+             f"(not self._paused or (set_plus({PP}, old({PP}), {NEWP}) and same_set({UP}, old({UP})))) and "
+             f"(self._paused or (set_plus({UP}, old({UP}), {NEWP}) and same_set({PP}, old({PP}))))"),
+            ("c15.push-producer-paused-at-once-iff-paused",
+             "not streaming or ((not self._paused or (bcalls('pauseProducing') == 1 and "
+             "bcall_arg('pauseProducing', 0, 0) == producer and len(bcall_names()) == 1)) and "
+             "(self._paused or len(bcall_names()) == 0))"),
+            ("c15.pull-adapter-started-paused-iff-paused",
+             "streaming or (bcalls('startStreaming') == 1 and bcall_arg('startStreaming', 0, 0) == self._paused and "
+             "len(bcall_names()) == 1)")],
+        modifies=["_subchannel_producers", "_all_producers", "_paused_producers", "_unpaused_producers"],
+        note="re-entrant. A producer registered while the Outbound is paused (send buffer full, or no connection) is booked "
+             "paused and told so before it can write; a pull producer is wrapped in a PullToPush adapter that is started "
+             "paused. Precondition: the same producer object is not registered for two subchannels"))
+    OLDP = "old(self._subchannel_producers[sc])"
+    cs.append(Contract(
+        OB + "subchannel_unregisterProducer", props=["C15"], params={"sc": SUBCH},
+        self_fields={f: OUTBOUND_FIELDS[f] for f in RF}, assert_mode="prove",
+        requires=RINV,
+        raises_exactly={"KeyError": "sc not in self._subchannel_producers"},
+        ensures=named(RINV) + [
+            ("c15.unregistered", "sc not in self._subchannel_producers"),
+            ("c15.leaves-the-rotation", f"removed_at({ALLP}, old({ALLP}), {OLDP}) and index_of({ALLP}, {OLDP}) < 0"),
+            ("c15.leaves-both-sets", f"set_minus({PP}, old({PP}), {OLDP}) and set_minus({UP}, old({UP}), {OLDP})"),
+            ("c15.pull-adapter-stopped", f"bcalls('stopStreaming') == ite(is_pull({OLDP}), 1, 0) and "
+                                         "len(bcall_names()) == bcalls('stopStreaming')")],
+        modifies=["_subchannel_producers", "_all_producers", "_paused_producers", "_unpaused_producers"],
+        note="re-entrant (FileSender unregisters itself from inside resumeProducing)"))
+    cs.append(Contract(
+        OB + "subchannel_closed", props=["C15"], params={"scid": "int", "sc": SUBCH},
+        self_fields={f: OUTBOUND_FIELDS[f] for f in RF}, assert_mode="prove",
+        requires=RINV,
+        ensures=named(RINV) + [
+            ("c15.unregistered", "sc not in self._subchannel_producers"),
+            ("c15.its-producer-leaves", f"implies(old(sc in self._subchannel_producers), removed_at({ALLP}, old({ALLP}), {OLDP}) and "
+                                        f"set_minus({PP}, old({PP}), {OLDP}) and set_minus({UP}, old({UP}), {OLDP}))"),
+            ("c15.nothing-else-changes", f"implies(not old(sc in self._subchannel_producers), {ALLP} == old({ALLP}) and "
+                                         f"{PP} == old({PP}) and {UP} == old({UP}))")],
+        modifies=["_subchannel_producers", "_all_producers", "_paused_producers", "_unpaused_producers"]))
+    cs.append(Contract(
+        OB + "stopProducing", props=["C15"], params={}, self_fields=fields(*PF), assert_mode="prove",
+        requires=PINV,
+        ensures=named(PINV) + [
+            ("c15.paused", "self._paused"),
+            ("c15.every-producer-paused", "no_member(self._unpaused_producers)"),
+            ("c15.nobody-forgotten", "set_union_is(self._paused_producers, old(self._paused_producers), old(self._unpaused_producers))")],
+        modifies=["_paused", "_paused_producers", "_unpaused_producers"]))
     for c in cs:
         c.qf_feasibility = True
+        c.replay = REPLAY
+    return cs
+
+
+# ------------------------------------------------------------------ Inbound (C15)
+def conn_pause(it, recv, meth, args, kwargs, fr):
+    """connection.pauseProducing(): ghost `paused_reading` := True"""
+    if isinstance(recv, VObj) and "paused_reading" in recv.fields:
+        recv.fields["paused_reading"] = VBool(True)
+    it.ctx.event("bcall", "Conn", "pauseProducing", list(args), {})
+    return NONE
+
+
+def conn_resume(it, recv, meth, args, kwargs, fr):
+    if isinstance(recv, VObj) and "paused_reading" in recv.fields:
+        recv.fields["paused_reading"] = VBool(False)
+    it.ctx.event("bcall", "Conn", "resumeProducing", list(args), {})
+    return NONE
+
+
+IB_F = {"_paused_subchannels": f"set[{SUBCH}]", "_connection": "opt[obj[Conn]]"}
+IB_INV = "self._connection is None or reading_paused(self) == bool(self._paused_subchannels)"
+PSC = "self._paused_subchannels"
+
+
+def inbound_contracts():
+    cs = []
+    inv = [("inv.connection-paused-iff-some-subchannel-paused", IB_INV)]
+    same_conn = ("frame.connection", "conn_same(self, old(self))")
+    cs.append(Contract(
+        IB + "subchannel_pauseProducing", props=["C15"], params={"sc": SUBCH}, self_fields=IB_F,
+        requires=[IB_INV], ensures=inv + [
+            same_conn, ("c15.recorded", f"set_plus({PSC}, old({PSC}), sc)"),
+            ("c15.connection-paused-on-first-request",
+             f"bcalls('pauseProducing') == ite(self._connection is not None and not bool(old({PSC})), 1, 0) and "
+             "len(bcall_names()) == bcalls('pauseProducing')")],
+        modifies=["_paused_subchannels", "_connection.paused_reading"]))
+    for nm in ("subchannel_resumeProducing", "subchannel_stopProducing"):
+        cs.append(Contract(
+            IB + nm, props=["C15"], params={"sc": SUBCH}, self_fields=IB_F,
+            requires=[IB_INV], ensures=inv + [
+                same_conn, ("c15.recorded", f"set_minus({PSC}, old({PSC}), sc)"),
+                ("c15.connection-resumed-when-last-request-goes",
+                 f"bcalls('resumeProducing') == ite(self._connection is not None and bool(old({PSC})) and not bool({PSC}), 1, 0) "
+                 "and len(bcall_names()) == bcalls('resumeProducing')")],
+            modifies=["_paused_subchannels", "_connection.paused_reading"]))
+    cs.append(Contract(
+        IB + "use_connection", props=["C15"], params={"c": "obj[Conn]"}, self_fields=IB_F,
+        requires=["self._connection is None", "not c.paused_reading"],
+        ensures=inv + [("c15.connection-set", "conn_is(self, c)"),
+                       ("c15.pause-carried-over", f"c.paused_reading == bool({PSC})"),
+                       ("frame.requests", f"{PSC} == old({PSC})")],
+        modifies=["_connection", "c.paused_reading"],
+        note="a replacement connection (created reading) is paused at once iff some subchannel still wants a pause"))
+    cs.append(Contract(
+        IB + "stop_using_connection", props=["C15"], params={}, self_fields=IB_F,
+        requires=[IB_INV], ensures=inv + [("c15.no-connection", "self._connection is None"),
+                                          ("c15.requests-kept", f"{PSC} == old({PSC})")],
+        modifies=["_connection"]))
+    for c in cs:
+        c.qf_feasibility = True
+        c.replay = REPLAY
     return cs
